@@ -265,6 +265,7 @@ def run(ctx: Ctx):
     # design on the genome that already carries it, annotated with the frames that follow from the new exon lengths (C06's pair)
     from . import c06
     c06.upstream_frameshift_stage(ctx, lambda kind, what: kind.startswith(('row_columns', 'row_missing', 'row_extra', 'refused')))
+    c06.compensating_stage(ctx, lambda kind, what: kind.startswith(('row_columns', 'row_missing', 'row_extra', 'refused')))
     return {'rule': 'S-api: each of the 64 codons placed whole, split 1+2, 2+1, 1+1+1 and across a long intron, on both strands; an SNV mutator on '
                     'each of its three bases through the real get_cds_seq + annotate; the three rows per base compared with the Coq model '
                     '(vm_compute) and with the transcript-walk oracle. S-file: random SGE designs (PAM edits in codons, background substitutions, '
